@@ -533,8 +533,11 @@ Proc(e) ==
             \* two recorded digests must be equal; the conjunct name is one of a fixed set
             LET a == Get0(aux.dg, e.same[1], <<"?a">>)
                 b == Get0(aux.dg, e.same[2], <<"?b", "?">>)
-            IN [base EXCEPT !.fails = IF a = b THEN {} ELSE
-                    IF e.conj \in {"C11.others", "C13.unchanged", "C15.bytes", "C18.equal", "C12.stable"} THEN {e.conj} ELSE {"TOOL.bad_conj"},
+            IN [base EXCEPT !.fails = IF a = b \/ e.conj = "C12.stable" THEN {} ELSE
+                    IF e.conj \in {"C11.others", "C13.unchanged", "C15.bytes", "C18.equal"} THEN {e.conj} ELSE {"TOOL.bad_conj"},
+                            \* byte-identical re-creation of a released image is more than C12 demands (layout and
+                            \* placement are documented, the order inside a chain or the choice of a free slot is not)
+                            !.drift = IF a # b /\ e.conj = "C12.stable" THEN "the stored history no longer reproduces the released image byte for byte" ELSE "",
                             \* the two digests are used up
                             !.aux = [aux EXCEPT !.dg = [t \in (DOMAIN aux.dg) \ {e.same[1], e.same[2]} |-> aux.dg[t]]]]
       [] e.ev = "conv" ->
